@@ -1,34 +1,29 @@
-(* C15 -- refutation witnesses for the PINNED source (generated model of
-   struct_cmp): two unequal numbers fall through to text comparison of their
-   decimal spelling.  Outside the cone of Props.v.  When this file stops
-   compiling the defect is gone (recorded in the evidence, never a violation). *)
+(* C15 -- refutation witnesses (vm_compute on the generated model) of the KNOWN
+   findings: functor names are compared with their quotes, and a compound
+   '-'(N) built at run time is taken for a number.  Outside the cone of
+   Props.v; when this file stops compiling the findings are gone (recorded in
+   the evidence, never a violation). *)
 From Coq Require Import ZArith NArith List Bool.
 From PL.C15 Require Import ModelStd ModelPrelude GenStructCmp.
 Import ListNotations.
 
-(* PropsFixed.C15_cmp_is_std is false: 10 vs 9 (both in [dom]) *)
-Theorem C15_cmp_is_std_refuted :
-  exists a b, dom a = true /\ dom b = true /\
-              forall fr, struct_cmp fr a b <> cmpZ (plg_cmp (denote a) (denote b)).
-Proof.
-  exists (TInt 10), (TInt 9). split; [reflexivity|]. split; [reflexivity|].
-  intros fr. vm_compute. discriminate.
-Qed.
+Definition q_zzz : term := TFun [39; 122; 122; 122; 39]%N [].   (* 'zzz' *)
+Definition a_abc : term := TFun [97; 98; 99]%N [].               (* abc *)
 
-(* PropsFixed.C15_sort is false: sort([10,9,2,1]) = [1,10,2,9] *)
-Theorem C15_sort_refuted :
-  exists xs, Forall (fun x => dom x = true) xs /\ is_py_set xs xs /\
-             forall fr, _builtin_sort_sorted fr xs = [TInt 1; TInt 10; TInt 2; TInt 9] /\
-                        _builtin_sort_sorted fr xs <> plg_sort xs.
-Proof.
-  exists [TInt 10; TInt 9; TInt 2; TInt 1]. split; [repeat constructor|]. split.
-  - split; [|tauto]. repeat constructor; cbn; intuition discriminate.
-  - intros fr. split; [vm_compute; reflexivity|vm_compute; discriminate].
-Qed.
+(* 'zzz' @< abc, although zzz comes after abc *)
+Theorem C15_quoted_atoms_refuted :
+  forall fr, struct_cmp fr q_zzz a_abc = (-1)%Z /\ plg_cmp (denote q_zzz) (denote a_abc) = Gt.
+Proof. intros fr. split; vm_compute; reflexivity. Qed.
 
-(* a negative multi-digit pair, and an int against a float *)
-Theorem C15_cmp_more_refuted :
-  (forall fr, struct_cmp fr (TInt (-3)) (TInt (-20)) = 1%Z) /\   (* right only by luck of '-3' > '-20' *)
-  (forall fr, struct_cmp fr (TInt (-20)) (TInt (-100)) = 1%Z) /\
-  (forall fr, struct_cmp fr (TInt 100) (TInt 20) = (-1)%Z /\ plg_cmp (TInt 100) (TInt 20) = Gt).
-Proof. repeat split; intros; vm_compute; reflexivity. Qed.
+(* 'a' and a denote the same atom but compare as different *)
+Theorem C15_quoted_same_atom_refuted :
+  forall fr, struct_cmp fr (TFun [39; 97; 39]%N []) (TFun [97]%N []) = (-1)%Z /\
+             plg_cmp (denote (TFun [39; 97; 39]%N [])) (denote (TFun [97]%N [])) = Eq.
+Proof. intros fr. split; vm_compute; reflexivity. Qed.
+
+(* X = 3, Y = -X builds the compound '-'(3) (functor stored as "'-'"):
+   struct_cmp treats it as the number -3, i.e. smaller than the atom a *)
+Theorem C15_minus_compound_refuted :
+  forall fr, let t := TFun [39; 45; 39]%N [TInt 3] in
+             struct_cmp fr t (TFun [97]%N []) = (-1)%Z /\ plg_cmp (denote t) (denote (TFun [97]%N [])) = Gt.
+Proof. intros fr. split; vm_compute; reflexivity. Qed.
